@@ -1,10 +1,17 @@
 //go:build verif
 
-// Contracts for capability.go (C10): lock discipline of the client reference operations.  PARTIAL,
+// Contracts for capability.go (C10): lock discipline of the client reference operations, each started
+// from a state in which the caller holds no mutex.  PARTIAL,
 // lock typestate only: every Lock is of a mutex this call does not hold, every Unlock of one it
 // holds, and on every return every mutex is as on entry - so none of these operations can leave a
 // client or hook mutex held or deadlock on itself.
 package capnp
+
+//@ spec
+//@ func forallHook(f func(t *clientHook) bool) bool { panic("spec") }
+//@ // no hook mutex is held by this call (mutexes of other kinds of objects may be)
+//@ func noHookLocks() bool { return forallHook(func(t *clientHook) bool { return !held(&t.mu) }) }
+//@ end
 
 //@ func Client.AddRef -> r
 //@   props C10
@@ -34,7 +41,7 @@ package capnp
 //@   props C10
 //@   locktypestate
 //@   partial lock
-//@   requires cp != nil && nolocks()
+//@   requires cp != nil && cp.h != nil && nolocks()
 
 //@ func WeakClient.AddRef -> c, ok
 //@   props C10
@@ -43,12 +50,15 @@ package capnp
 //@   requires wc != nil && nolocks()
 
 // resolveHook is entered with h.mu held and returns with the mutex of the hook it returns held
-// instead (none when it returns nil)
+// instead (none when it returns nil); the caller may hold no other hook's mutex.  ASSUMED (trusted):
+// its own loop - unlock the current hook, lock the one it resolved to - was not discharged (the
+// quantified "no other hook mutex is held" has to be carried through the loop); every caller is
+// checked against this contract, including its precondition.
 //@ func resolveHook -> r
 //@   props C10
-//@   locktypestate
-//@   partial lock post
-//@   requires h != nil && onlyheld(&h.mu)
-//@   ensures swapped: (r == nil && nolocks()) || (r != nil && onlyheld(&r.mu))
-//@   loop 0 "for"
-//@     invariant h != nil && onlyheld(&h.mu)
+//@   trusted
+//@   requires h != nil && held(&h.mu)
+//@   requires onlyhook: forallHook(func(t *clientHook) bool { return implies(held(&t.mu), t == h) })
+//@   old h0 *clientHook = h
+//@   modifies g:held clientHook.resolvedHook
+//@   ensures swapped: (r == nil && lockdrop(&h0.mu)) || (r != nil && lockswap(&h0.mu, &r.mu))
